@@ -23,7 +23,9 @@ reg('C12', 'exploration',
     'by the implementation itself is checked by postconditions attached to the real classes; '
     'results are compared with an independent stack model and posixpath/ntpath. The enumerated '
     'string space (<=3 components quick, <=4 thorough, x separators x prefixes x 15 roots x 2 '
-    'flavours) is covered completely; longer strings and set laws are sampled.',
+    'flavours) is covered completely; longer strings and set laws are sampled.  string() / '
+    'realize() against plain, odd and root-directory bases and with a $(DESTDIR) staging '
+    'directory equal ordinary joining.',
     'Trusted: CPython posixpath/ntpath as the meaning of "ordinary joining"; the 30-line stack '
     'model in vf/props/c12.py. Leading // (UNC / POSIX implementation-defined) is outside the law.',
     'DESIGN.md §2 C12')
@@ -95,7 +97,9 @@ reg('C09', 'exploration',
     'sequences and inside real bfg9000 processes running generated toolchain files; '
     'Environment.load(save(e)) is compared attribute-wise incl. v4..v16 snapshots derived by '
     'inverting the documented upgrades; configure under E1 then regenerate/env/run under a hostile '
-    'E2 must give byte-identical build files and exactly the saved variables.',
+    'E2 must give byte-identical build files and exactly the saved variables; the snapshot '
+    'written and read with open() behaving as under different locale encodings is the same '
+    'configuration.',
     'Trusted: plain-dict model of EnvVarDict; the inverse-upgrade synthesiser (calibrated against '
     'test/data/environment/v4); stub tool chain.',
     'DESIGN.md §2 C09')
@@ -103,8 +107,10 @@ reg('C15', 'exploration',
     'whole-tree snapshot diff around real `make|ninja install` / `uninstall` (real gcc, doppel, '
     'patchelf traced through wrappers) against an independent placement model; readelf on '
     'installed ELF files',
-    'Generated projects with every installable kind, random directory= arguments, prefixes with '
-    'spaces and DESTDIR forms; created entries must equal the model set, nothing else may change '
+    'Generated projects with every installable kind, random directory= arguments (relative, '
+    'Path(.., InstallRoot.x) and absolute strings), prefixes with spaces and DESTDIR forms; a '
+    'directed family with a vendored (pre-built, in the source tree) shared library as run-time '
+    'dependency; created entries must equal the model set, nothing else may change '
     '(bystander files planted), RUNPATH must name installed library dirs only, installed programs '
     'run with the build tree moved away, uninstall removes exactly what install created.',
     'Trusted: the placement model in vf/gen/c15gen.py (from docs and the project integration '
@@ -261,7 +267,8 @@ reg('C19', 'exploration',
     'inputs/outputs/include dirs/extra_deps in current, nested, parent and sibling directories; '
     'project arguments in plain / --x- / mixed spellings incl. enable/with pairs, compared across '
     'spellings, with an independent argparse-semantics model, and across three kinds of '
-    'regeneration (same cwd, other cwd + perturbed environment, triggered by make).',
+    'regeneration (same cwd, other cwd + perturbed environment, triggered by make).  Every log '
+    'record also carries the process working directory, which must be the running script\'s own.',
     'Trusted: vf/gen/c19gen.py simulator and vf/ref/c19args.py.',
     'DESIGN.md §2 C19')
 
